@@ -262,6 +262,9 @@ func (r *Run) Finish() {
 		kf += n
 	}
 	cov["known_finding_cases"] = kf
+	if r.Assume == nil {
+		r.Assume = []string{}
+	}
 	out := map[string]any{
 		"property_id": r.ID, "tier": r.Tier, "seed": r.Seed, "level": r.Level,
 		"coverage": cov, "assumptions": r.Assume,
@@ -276,6 +279,9 @@ func (r *Run) Finish() {
 	}
 	fmt.Printf("SUMMARY property=%s tier=%s violations=%d known=%d wall=%.1fs exhaustive=%v\n", r.ID, r.Tier, len(unknown), kf,
 		time.Since(r.start).Seconds(), cov["exhaustive"])
+	if os.Getenv("VERIF_NOEXIT") != "" {
+		return // profiling runs: let the test binary flush its profiles
+	}
 	if len(unknown) > 0 {
 		os.Exit(1)
 	}
